@@ -211,9 +211,10 @@ def toOutputAddr (idx addr : List Nat) : List Nat :=
 matrix of one array: `indices[a]`; `none` models the `IndexError` -/
 def queryCols (sel : Option (List Nat)) (addr : List Nat) (sub : Option (List Nat)) : Option (List Nat) :=
   let ind := match sel with | none => addr | some idx => toOutputAddr idx addr
-  match sub with
-  | none => some ind
-  | some a => a.mapM (fun i => ind[i]?)
+  if sel.isSome && ind.isEmpty then some []     -- "not found in <Output>, skipped"
+  else match sub with
+    | none => some ind
+    | some a => a.mapM (fun i => ind[i]?)
 
 /-- the address whose values a stored column holds -/
 def colAddr (sel : Option (List Nat)) (col : Nat) : Nat :=
